@@ -9,6 +9,13 @@ IDS="$*"; [ -z "$IDS" ] && IDS="C01 C02 C03 C04 C05 C06 C07 C08 C09 C10 C11 C12 
 PAR="${PAR:-4}"
 D=$(mktemp -d /tmp/ioptsweep.XXXXXX)
 rsync -a --exclude .git --exclude docs --exclude examples /repo/ "$D/repo/"
+if ! ( cd "$D/repo" && patch -p1 -s --dry-run < "$P" >/dev/null 2>&1 ); then
+  # the patch was written against an earlier HEAD of /repo (before a later "fix:" commit touched the same lines):
+  # run it on the commit it was written against
+  rm -rf "$D/repo"; mkdir -p "$D/repo"
+  git -C /repo archive "${SEED_BASE:-307e96d}" -- iOpt setup.py 2>/dev/null | tar -x -C "$D/repo"
+  echo "note: patch does not apply to HEAD; using base ${SEED_BASE:-307e96d}"
+fi
 ( cd "$D/repo" && patch -p1 -s < "$P" ) || { echo "patch failed"; rm -rf "$D"; exit 3; }
 cd "$(dirname "$0")/.."
 one() {
